@@ -23,13 +23,14 @@ META = dict(
         "own caption word. The collection is written with the real writer side (FsOutput, zip_dir) and opened with wiki.make_wiki. "
         "Oracle (rl): the writer entry point returns, pypdf opens the file, and the extracted text with whitespace and hyphens removed "
         "contains every expected word. Oracle (odf): the writer entry point returns, content.xml / styles.xml / meta.xml are well-formed "
-        "and odflint reports nothing but the mimetype note the repository's own test tolerates. A slice of documents additionally goes "
+        "and odflint reports nothing but the mimetype note the repository's own test tolerates, and no article was dropped as a whole ("gives up": "
+        "at least one expected word of every article is in content.xml's text; the total of missing ODF words is reported as a note, not asserted). A slice of documents additionally goes "
         "through the single-article test mode of both writers. Non-trivial: >= 2 articles, or a template call, or an image."
     ),
     assumptions=[
         "presence of words in the extracted PDF text is checked, not layout or order",
         "inline-image captions are alt text and not required; thumbnail, gallery and table-cell captions are",
-        "the ODF book path is judged on package well-formedness and lint only (what the statement demands of the ODF writer)",
+        "the ODF book path is judged on package well-formedness, lint and 'no article dropped as a whole' (the statement demands word-by-word completeness of the PDF only)",
     ],
     floors={"nontrivial": (0.5, None), "multi-article": (0.3, None), "images": (0.25, None), "chapters": (0.1, None)},
     stall_s=300,
@@ -255,6 +256,16 @@ def check(ctx, case):
                     lines = [l for l in r.splitlines() if l.strip() and "mimetype" not in l]
                     if lines:
                         F("odf:lint", "\n".join(lines[:8]))
+                    # "gives up": an article none of whose words reached the document was dropped as a whole
+                    # (word-by-word completeness is stated for the PDF only; for ODF it is counted, not asserted)
+                    with zipfile.ZipFile(out) as zf:
+                        otxt = "".join(etree.fromstring(zf.read("content.xml")).itertext())
+                    dropped = [a["title"] for a in case["articles"] if a["expected"] and not any(w in otxt for w in a["expected"])]
+                    if dropped:
+                        F("odf:article-dropped", "no word of article(s) %r is in content.xml (%d characters of text)" % (dropped, len(otxt)))
+                    miss = sum(1 for w in expected if w not in otxt)
+                    ctx.note("odf_words_expected", ctx.notes.get("odf_words_expected", 0) + len(expected))
+                    ctx.note("odf_words_missing_from_content_xml", ctx.notes.get("odf_words_missing_from_content_xml", 0) + miss)
         finally:
             close_dbs(env)
     finally:
